@@ -29,7 +29,7 @@ func genHSStall(t *rapid.T) HSPath {
 		c.HandshakeTimeoutMs = rapid.SampledFrom([]int{1000, 7000}).Draw(t, "hto")
 		c.CtxDeadlineMs = rapid.SampledFrom([]int{500, 9000}).Draw(t, "ctx")
 	}
-	stages := []string{"accept", "ws-reply"}
+	stages := []string{"accept", "ws-reply", "ws-reply-head", "ws-error-body"}
 	switch c.Path {
 	case "direct-wss":
 		stages = append(stages, "backend-tls")
